@@ -136,6 +136,10 @@ def gen_cases(rng, tier):
             ng += boundary_cases(mt, True)
             if not thorough and ng >= 40:
                 break
+        # large messages of bytes >= 0x80 (see C02): the CheckSum written by encode and the one verified by
+        # factory come from the same routine, so this class mainly ties the model on big high-byte content
+        for cls, mt, hdr, body, trl in G.highbyte_messages(meta, rng, sizes=(1600, 4000, 7900), kinds=("rand", "cjk", "ascii"), max_types=3):
+            cs.append(Case(px + "RT s " + G.ser_msg(mt, hdr, body, trl), cls))
         # flat messages (no group elements, no Length/data pair, no trailer field): the domain of theorem
         # c01_roundtrip_partial -- run them (RT) and check that its hypotheses hold for them (HYP)
         def positioned(owner):
